@@ -62,6 +62,8 @@ def run(res):
     rng = rng_for('C02')
     cases, n_exh = cases_for(res, rng)
     st = mc_common.run_cases(res, 'LTL', cases, 'C02')
+    arng = rng_for('C02/names')
+    st.update(mc_common.adversarial_names_stream(res, 'LTL', lambda: ('A', F.rand_ltl_path(arng, 3, max_temporal=3)), arng, res.tier == 'quick', 'C02'))
     # internal-level tie of the one component that used to be modelled declaratively: closure, processing order, atom
     # multisets, _checkE_path_formula, under several hash seeds in fresh interpreters (harness/validate_ltlatoms.py)
     import os
